@@ -9,6 +9,7 @@ import (
 	"errors"
 	"fmt"
 	"net"
+	"os"
 	"runtime"
 	"strings"
 	"sync"
@@ -261,6 +262,8 @@ type Server struct {
 	D   *Director
 }
 
+var stormMu sync.Mutex
+
 func (p *Server) release(ctx *gorums.ServerCtx, s *Script, method string, when string) {
 	atEntry := s.Release == "early" || s.Release == "twice" || s.Release == "helper" || s.Release == "storm"
 	if (when == "entry" && !atEntry) || (when == "late" && s.Release != "late") {
@@ -285,20 +288,28 @@ func (p *Server) release(ctx *gorums.ServerCtx, s *Script, method string, when s
 		p.D.note(p.Idx, s, method, "release")
 		// (a spin barrier rather than a channel: the releases must really happen at the same instant on
 		// different cores for a check-then-act in Release to be caught)
+		// one storm at a time in the process: the spinning goroutines of several simultaneous storms would
+		// occupy every core and starve everything else
 		const n = 8
-		var ready, fire int32
+		stormMu.Lock()
+		var ready, fire, gone int32
 		for i := 0; i < n; i++ {
 			go func() {
 				atomic.AddInt32(&ready, 1)
 				for atomic.LoadInt32(&fire) == 0 {
 				}
 				ctx.Release()
+				atomic.AddInt32(&gone, 1)
 			}()
 		}
 		for atomic.LoadInt32(&ready) < n {
 			runtime.Gosched()
 		}
 		atomic.StoreInt32(&fire, 1)
+		for atomic.LoadInt32(&gone) < n {
+			runtime.Gosched()
+		}
+		stormMu.Unlock()
 	}
 }
 
@@ -413,10 +424,32 @@ type Cluster struct {
 	opts    []gorums.ServerOption
 }
 
+// listenLocal listens on a loopback port below the kernel's ephemeral range (32768-60999), taken from a
+// process-wide cursor that only moves forward.  Servers are stopped and restarted on the same port; a port the
+// kernel hands out for ":0" could be given to another listener in between, which makes Restart fail in long runs.
+var portCursor = int32(21000 + (os.Getpid()*997)%10000)
+
+func listenLocal() (net.Listener, error) {
+	var err error
+	for k := 0; k < 4000; k++ {
+		p := atomic.AddInt32(&portCursor, 1)
+		if p >= 32000 {
+			atomic.StoreInt32(&portCursor, 21000)
+			continue
+		}
+		var l net.Listener
+		l, err = net.Listen("tcp", fmt.Sprintf("127.0.0.1:%d", p))
+		if err == nil {
+			return l, nil
+		}
+	}
+	return nil, err
+}
+
 func NewCluster(n int, opts ...gorums.ServerOption) (*Cluster, error) {
 	c := &Cluster{N: n, D: NewDirector(), Addrs: make([]string, n), servers: make([]*gorums.Server, n), lis: make([]net.Listener, n), opts: opts}
 	for i := 0; i < n; i++ {
-		l, err := net.Listen("tcp", "127.0.0.1:0")
+		l, err := listenLocal()
 		if err != nil {
 			return nil, err
 		}
